@@ -70,15 +70,19 @@ RULE = (
     "structure, x primary flags none / one (usually not the inferred member) / several x same or mixed strands x parent "
     "none / chromosome / chromosome without sequence / containing chunk / cutting chunk; seeded random genes of 1..5 "
     "children (free structure incl. frameshifts, engineered ties: equal CDS, equal CDS and length, all non-coding, "
-    "long-transcript-short-CDS); feature collections likewise over a length palette with feature-type sets incl. empty "
+    "long-transcript-short-CDS); families of 2..5 transcripts sharing start/end (and, per family, CDS start/end) but "
+    "differing in internal exons / CDS blocks (exon skipping, alternative internal exons and splice sites, single-exon "
+    "member), optionally with an exact structural duplicate under another id or an outsider, in EVERY list order "
+    "(n<=3) or 4 random orders; the same families of features for feature collections; feature collections likewise over a length palette with feature-type sets incl. empty "
     "and unstranded features; annotation collections of 0..5 genes + 0..3 feature collections with engineered ties in "
     "start, explicit (exact / wider) and inferred bounds on every parent kind. A case signature is (kind, parent kind, "
-    "per child: rank of CDS length, rank of spliced length, strand, flag, exon-count class) resp. (start-rank pattern, "
+    "per child: rank of CDS length, rank of spliced length, strand, flag, exon-count class, rank of bounds, rank of "
+    "structure) resp. (start-rank pattern, "
     "bounds kind, parent kind); non-trivial = >= 2 children or a primary flag (collections: >= 2 members, or empty)."
 )
 SCOPE = {
-    "quick": {"C": (0, 4, 9), "S": (9, 14), "N4": 60, "RG": 900, "FL": (4, 9, 13), "RF": 500, "AC": 500},
-    "thorough": {"C": (0, 4, 9), "S": (9, 12, 14), "N4": 1500, "RG": 12000, "FL": (4, 9, 13), "RF": 6000, "AC": 6000},
+    "quick": {"C": (0, 4, 9), "S": (9, 14), "N4": 60, "RG": 900, "FL": (4, 9, 13), "RF": 500, "AC": 500, "FAM": 160, "FFAM": 80},
+    "thorough": {"C": (0, 4, 9), "S": (9, 12, 14), "N4": 1500, "RG": 12000, "FL": (4, 9, 13), "RF": 6000, "AC": 6000, "FAM": 2400, "FFAM": 1200},
 }
 FLOOR = {"quick": 800, "thorough": 5000}
 REQUIRED_MONITORS = ["agg.children", "agg.span", "agg.is-coding", "agg.feature-types", "agg.primary", "agg.primary-accessors",
@@ -417,6 +421,110 @@ def _acoll_case(rng):
     return {"kind": "acoll", "gen": "rand", "coll": cspec, "bounds": bk, "parent": p}
 
 
+# ---- families: children that share their bounds (and CDS bounds) but differ in internal structure -------------------
+def _family_member(rng, a, b, f, g):
+    """Blocks spanning exactly [a, b): first block >= [a, a+f), last block >= [b-g, b), 0..3 internal blocks (exon
+    skipping / alternative internal exons, alternative donor / acceptor sites), or the single block [a, b)."""
+    if rng.random() < 0.12:
+        return [[a, b]]
+    fe = a + f + rng.choice([0, 0, 1, 3])
+    ls = b - g - rng.choice([0, 0, 1, 3])
+    blocks = [[a, fe]]
+    pos = fe + 1
+    for _ in range(rng.randint(0, 3)):
+        if ls - 1 - pos < 2:
+            break
+        s = rng.randint(pos, min(pos + 6, ls - 2))
+        e = rng.randint(s + 1, min(s + 7, ls - 1))
+        blocks.append([s, e])
+        pos = e + 1
+    blocks.append([ls, b])
+    return blocks
+
+
+def _family_structures(rng, lo, hi, n, dup):
+    """n block lists with identical bounds; pairwise different unless `dup` (then one is an exact copy of another)."""
+    span = rng.randint(30, min(75, hi - lo))
+    a = rng.randint(lo, hi - span)
+    b = a + span
+    f, g = rng.randint(2, 5), rng.randint(2, 5)
+    out = []
+    want = n - 1 if (dup and n > 1) else n
+    tries = 0
+    while len(out) < want and tries < 200:
+        tries += 1
+        m = _family_member(rng, a, b, f, g)
+        if m not in out:
+            out.append(m)
+    while len(out) < n:
+        out.append([list(x) for x in rng.choice(out)])
+    return out, (a, b, f, g)
+
+
+def _family_gene_cases(rng):
+    """One family of transcripts -> the same gene in every list order (n <= 3) or in 4 random orders."""
+    n = rng.choice([2, 2, 3, 3, 4, 5])
+    style = rng.choice(["distinct", "distinct", "with-duplicate", "plus-outsider"])
+    lo = rng.randint(0, 30)
+    hi = rng.randint(lo + 100, GLEN)
+    nfam = n - 1 if (style == "plus-outsider" and n > 2) else n
+    structs, (a, b, f, g) = _family_structures(rng, lo, hi, nfam, style == "with-duplicate")
+    mixed = rng.random() < 0.12
+    strands = _strands(rng, n, mixed)
+    cds_style = rng.choice(["shared-cds-bounds", "shared-cds-bounds", "own-cds", "noncoding"])
+    ca, cb = rng.randint(a, a + f - 1), rng.randint(b - g + 1, b)
+    txs = []
+    for k in range(n):
+        st = strands[k]
+        if k < nfam:
+            exons = [list(x) for x in structs[k]]
+        else:
+            exons = _place(rng, _compose(rng, rng.randint(3, 30), rng.randint(1, 3)), lo, hi)
+        t = {"exons": exons, "strand": st, "cds": None, "frames": None, "transcript_id": f"tx_{k}", "transcript_symbol": f"sym_{k}",
+             "transcript_type": None, "protein_id": None, "product": None, "is_primary_tx": None, "qualifiers": {}, "guid": None}
+        cds = None
+        if cds_style == "shared-cds-bounds" and k < nfam and rng.random() < 0.85:
+            cds = GG.clip_blocks(exons, ca, cb)
+        elif cds_style == "own-cds" or (cds_style == "shared-cds-bounds" and k >= nfam):
+            if rng.random() < 0.75:
+                cds = GG.rand_cds_in_exons(rng, exons)
+        if cds and blen(cds) >= 1:
+            t["cds"] = cds
+            t["frames"] = GG.rand_frames(rng, cds, st, None, 0)
+            t["transcript_type"] = "protein_coding"
+            t["protein_id"] = f"prot_{k}"
+        txs.append(t)
+    _flag(rng, txs, "is_primary_tx", _triples_tx(txs), rng.choice(["none", "none", "none", "one", "false-only"]))
+    orders = list(itertools.permutations(range(n))) if n <= 3 else [rng.sample(range(n), n) for _ in range(4)]
+    for order in orders:
+        g_ = _gene_wrap(rng, [dict(txs[j]) for j in order])
+        glo, ghi = GG.gene_span(g_)
+        yield {"kind": "gene", "gen": "fam-" + style + "-" + cds_style, "gene": g_, "parent": _parent_for(rng, rng.choice(MODES), glo, ghi)}
+
+
+def _family_fcoll_cases(rng):
+    n = rng.choice([2, 2, 3, 3, 4, 5])
+    style = rng.choice(["distinct", "distinct", "with-duplicate", "plus-outsider"])
+    lo = rng.randint(0, 30)
+    hi = rng.randint(lo + 100, GLEN)
+    nfam = n - 1 if (style == "plus-outsider" and n > 2) else n
+    structs, _ = _family_structures(rng, lo, hi, nfam, style == "with-duplicate")
+    strands = _strands(rng, n, rng.random() < 0.12, "+-." if rng.random() < 0.15 else "+-")
+    types = _rand_types(rng, n)
+    fs = []
+    for k in range(n):
+        blocks = [list(x) for x in structs[k]] if k < nfam else _place(rng, _compose(rng, rng.randint(3, 25), rng.randint(1, 3)), lo, hi)
+        fs.append({"blocks": blocks, "strand": strands[k], "feature_types": sorted(types[k]), "feature_name": f"feat_{k}", "feature_id": f"fid_{k}",
+                   "is_primary_feature": None, "qualifiers": {}, "guid": None})
+    _flag(rng, fs, "is_primary_feature", _triples_feat(fs), rng.choice(["none", "none", "none", "one", "false-only"]))
+    orders = list(itertools.permutations(range(n))) if n <= 3 else [rng.sample(range(n), n) for _ in range(4)]
+    for order in orders:
+        fc = {"features": [dict(fs[j]) for j in order], "feature_collection_name": "fc0", "feature_collection_id": "fcid0",
+              "feature_collection_type": rng.choice([None, "grp"]), "locus_tag": "FLT0", "qualifiers": {}, "guid": None}
+        flo, fhi = GG.fcoll_span(fc)
+        yield {"kind": "fcoll", "gen": "fam-" + style, "fcoll": fc, "parent": _parent_for(rng, rng.choice(MODES), flo, fhi)}
+
+
 def cases(spec, ctx):
     i, n = spec["i"], spec["n"]
     sc = SCOPE[ctx.tier]
@@ -479,6 +587,11 @@ def cases(spec, ctx):
         how = rng.choice(["none", "none", "one", "several", "false-only"]) if nfe > 1 else rng.choice(["none", "one"])
         yield _fcoll_case(rng, lens, _strands(rng, nfe, rng.random() < 0.35, "+-." if rng.random() < 0.2 else "+-"), _rand_types(rng, nfe), how,
                           rng.choice(MODES), "rand")
+    # ---- (e) families sharing bounds / CDS bounds with different internal structure, every list order ---------------
+    for k in range(sc["FAM"] // n + 1):
+        yield from _family_gene_cases(rng)
+    for k in range(sc["FFAM"] // n + 1):
+        yield from _family_fcoll_cases(rng)
     # ---- (d) annotation collections ---------------------------------------------------------------------------------
     for k in range(sc["AC"] // n + 1):
         yield _acoll_case(rng)
@@ -505,7 +618,34 @@ def _klass(kind, gen, want, strands):
         return kind + "-several-flags"
     if len(set(strands)) > 1:
         return kind + "-mixed-strands"
-    return kind + "-" + gen.split("-")[0]
+    g0 = gen.split("-")[0]
+    if kind == "fcoll" and g0 != "fam":
+        g0 = "lengths"  # palette tuples + random lengths
+    return kind + "-" + g0
+
+
+def _share_pattern(block_lists):
+    """(rank of the bounds, rank of the whole structure) per child: which children share bounds / are identical."""
+    spans = [(bl[0][0], bl[-1][1]) if bl else (-1, -1) for bl in block_lists]
+    structs = [tuple(tuple(b) for b in bl) for bl in block_lists]
+    return tuple(zip(_ranks(spans), _ranks(structs)))
+
+
+def _shares_bounds(block_lists):
+    """Two children with the same bounds but different internal blocks."""
+    seen = {}
+    for bl in block_lists:
+        key = (bl[0][0], bl[-1][1])
+        st = tuple(tuple(b) for b in bl)
+        if key in seen and st not in seen[key]:
+            return True
+        seen.setdefault(key, set()).add(st)
+    return False
+
+
+def _has_duplicate(block_lists):
+    sts = [tuple(tuple(b) for b in bl) for bl in block_lists]
+    return len(set(sts)) < len(sts)
 
 
 def _ranks(vals):
@@ -585,7 +725,15 @@ def _run_gene(case, ctx):
     nflag = sum(1 for t in triples if t[0] is True)
     modeclass = p["mode"]
     sig = ("gene", modeclass, tuple(zip(_ranks([t[1] for t in triples]), _ranks([t[2] for t in triples]), strands,
-                                         [str(t[0]) for t in triples], [min(len(t["exons"]), 3) for t in txs])))
+                                         [str(t[0]) for t in triples], [min(len(t["exons"]), 3) for t in txs])),
+           _share_pattern([t["exons"] for t in txs]), _share_pattern([t["cds"] or [] for t in txs]))
+    shared = _shares_bounds([t["exons"] for t in txs])
+    if shared:
+        ctx.bump("hist:gene-children-sharing-bounds-with-different-exons")
+    if _shares_bounds([t["cds"] for t in txs if t["cds"]]):
+        ctx.bump("hist:gene-children-sharing-cds-bounds-with-different-cds-blocks")
+    if _has_duplicate([t["exons"] for t in txs]):
+        ctx.bump("hist:gene-children-with-identical-structure")
     ctx.note(sig, nontrivial=n >= 2 or nflag >= 1, klass=_klass("gene", case["gen"], want, strands))
     ctx.bump(f"hist:gene-{case['gen'].split('-')[0]}-" + ("multiflag" if want == "error" else why) + ("-mixed" if len(set(strands)) > 1 else ""))
     ctx.bump("hist:gene-parent-" + p["mode"])
@@ -696,7 +844,11 @@ def _run_fcoll(case, ctx):
     strands = [f["strand"] for f in fs]
     nflag = sum(1 for t in triples if t[0] is True)
     sig = ("fcoll", p["mode"], tuple(zip(_ranks([t[2] for t in triples]), strands, [str(t[0]) for t in triples], [len(f["blocks"]) for f in fs],
-                                         [len(f["feature_types"]) for f in fs])))
+                                         [len(f["feature_types"]) for f in fs])), _share_pattern([f["blocks"] for f in fs]))
+    if _shares_bounds([f["blocks"] for f in fs]):
+        ctx.bump("hist:fcoll-children-sharing-bounds-with-different-blocks")
+    if _has_duplicate([f["blocks"] for f in fs]):
+        ctx.bump("hist:fcoll-children-with-identical-structure")
     ctx.note(sig, nontrivial=n >= 2 or nflag >= 1, klass=_klass("fcoll", case["gen"], want, strands))
     ctx.bump(f"hist:fcoll-{case['gen']}-" + ("multiflag" if want == "error" else why) + ("-mixed" if len(set(strands)) > 1 else ""))
     parent = _build_parent(p, genome)
